@@ -535,9 +535,14 @@ def conc_case(name, rng: random.Random, seed=None):
             elif r < 0.64:
                 lines.append(f"thread {t} remove_range U U" if rng.random() < 0.5 else f"thread {t} remove_range I:{hexs(min(keys))} I:{hexs(max(keys))}")
             elif r < 0.80:
-                # a ranged read of an EMPTY blob returns without opening it (sequential model: Store.get_range);
-                # the concurrent model has one read path, so `range` is used only when no content is empty
-                lines.append(f"thread {t} {rng.choice(['get', 'get', 'reader', 'range' if b'' not in contents else 'reader'])} {k}")
+                kind = rng.choice(['get', 'get', 'reader', 'range', 'range', 'iter'])
+                if kind == 'range' and rng.random() < 0.7:
+                    a = rng.choice([0, 1, 2, 3, 5]); b = rng.choice([0, 1, 2, 3, 4, 2**63, 2**64 - 1])
+                    lines.append(f"thread {t} range {k} {a} {b}")
+                elif kind == 'iter':
+                    lines.append(f"thread {t} iter")
+                else:
+                    lines.append(f"thread {t} {kind} {k}")
             elif r < 0.85:
                 lines.append(f"thread {t} size {k}")
             elif r < 0.90:
